@@ -96,9 +96,9 @@ func sideBoth(a, b func(c *rules.Ctx, fn *ssa.Function, in ssa.Instruction) (boo
 const showOnSourceReason = "ASSUMPTION (runtime quantity, not decided): the ranges rendered by ParseErrorsToString were produced by ANTLR for the same text, so 0 <= Start.Line <= End.Line < number of lines and tokens have non-empty text (End.Character >= Start.Character on one line)"
 
 var parseExceptions = map[string]rules.PanicException{
-	"panic:internal/parser.Range.ShowOnSource:slice":    {Reason: showOnSourceReason},
-	"panic:internal/parser.Range.ShowOnSource:index":    {Reason: showOnSourceReason},
-	"panic:internal/parser.Range.ShowOnSource$2:repeat": {Reason: showOnSourceReason},
+	"shape:internal/parser:slice:renderer":  {Reason: showOnSourceReason},
+	"shape:internal/parser:index:renderer":  {Reason: showOnSourceReason},
+	"shape:internal/parser:repeat:renderer": {Reason: showOnSourceReason, Side: rules.SideRendererCount},
 	"shape:internal/parser:explicit:setstring10-failed": {
 		Reason: "in the parser package base-ten big.Int.SetString is only applied to the parts of a RATIO token split on '/' (trimmed digit strings) and to a PERCENTAGE token minus '%' and '.' (a digit string), on which it is total", Side: sideBoth(sideRatioParts, sidePercentDigits)},
 	"shape:internal/parser:explicit:setstring10-failed-in-callee": {
